@@ -792,6 +792,12 @@ func ToEntry(n Node) (e *Entry) {
 			// There is nothing else for us to do.
 		case "include":
 			for _, a := range fv.Interface().([]*Include) {
+				if a.Module == nil {
+					// The include was never resolved, e.g., when n is a
+					// submodule that no loaded module includes.
+					e.addError(fmt.Errorf("%s: unresolved include of %s", Source(a), a.Name))
+					continue
+				}
 				// Handle circular dependencies between submodules. This can occur in
 				// two ways:
 				//  - Where submodule A imports submodule B, and vice versa then the
